@@ -2250,6 +2250,7 @@ class _Frame:
             st.env[tgt.id] = v
         elif isinstance(tgt, (ast.Tuple, ast.List)):
             n = len(tgt.elts)
+            v = self._spread_map(v, st, stmt)
             if not any(isinstance(e, ast.Starred) for e in tgt.elts):
                 self.rec.pops.append(POp("unpack", v, n, st.pc, self.loops, self.trys, self.seq(), self.qualname,
                                          getattr(tgt, "lineno", 0), getattr(tgt, "col_offset", 0)))
@@ -2290,6 +2291,28 @@ class _Frame:
                 st.heap[T("sub", (self.path_of(tgt.value, st), key))] = v
         elif isinstance(tgt, ast.Starred):
             self.bind(tgt.value, v, st, stmt, record)
+
+    def _spread_map(self, v: T, st: State, stmt) -> T:
+        """`a, b = map(f, (x, y))` / `reversed((x, y))` being unpacked: the tuple of the items, f applied to each."""
+        def lit(t):
+            if t.op == "call" and t.a[0] == T("builtin", ("reversed",)) and len(t.a[1]) == 1 and not t.a[2]:
+                inner = lit(t.a[1][0])
+                return None if inner is None else tuple(reversed(inner))
+            if t.op in ("tuple", "list") and not any(i_.op == "star" for i_ in t.a[0]):
+                return tuple(t.a[0])
+            return None
+        direct = lit(v)
+        if direct is not None and v.op == "call":
+            return T("tuple", (direct,))
+        if v.op == "call" and v.a[0] == T("builtin", ("map",)) and len(v.a[1]) == 2 and not v.a[2]:
+            f, xs = v.a[1]
+            items = lit(xs)
+            if items is not None and f.op in ("builtin", "func", "lambda", "global") and len(items) <= 8:
+                try:
+                    return T("tuple", (tuple(self.call(f, (x,), (), st, stmt) for x in items),))
+                except AnalysisError:
+                    return v
+        return v
 
     def _is_sentinel(self, v: T) -> bool:
         """A module-level `NAME = object()` of the package: a value no table can contain."""
